@@ -1,8 +1,8 @@
 (** The reply codes of the SMTP session, model against source: Gen/SmtpReplies.v is regenerated on every
     run from pkg/server/smtp/handler.go (the literal three-digit prefix of every send call). Every reply
     line the model's step function writes carries one of those codes (unless it is the code of an
-    extension's own Deny), and every code in the source is written by some step of the model (220 is the
-    greeting, which precedes the loop). A reply site added to, removed from or renumbered in the source
+    extension's own Deny), and every code in the source is written by some step of the model (220 too: the
+    greeting precedes the loop, but an accepted STARTTLS is answered 220 by a step). A reply site added to, removed from or renumbered in the source
     therefore breaks a theorem here even where no generated dialogue reaches it. *)
 From IV Require Import Base.Bytes Model.Policy Model.Smtp Gen.SmtpReplies Proofs.SmtpInv.
 From Coq Require Import ZifyBool Lia.
@@ -36,42 +36,42 @@ Definition c0 : scfg := {| pol := p0; max_rcpt := 1; max_bytes := 10; tls_enable
 Definition sess (x : sstate) : session := {| st := x; from := None; rcpts := []; helo := [104]; tls := false |}.
 Definition og : origin := {| o_addr := [97]; o_domain := [98] |}.
 Definition rc : recipient := {| r_addr := [97]; r_domain := [98]; r_mailbox := [97] |}.
-Definition witnesses : list (session * item) :=
-  [ (sess READY, L Quit);                                   (* 221 *)
-    (sess PASSWORD, L Noop);                                (* 235 *)
-    (sess READY, L Noop);                                   (* 250 *)
-    (sess READY, L Vrfy);                                   (* 252 *)
-    (sess READY, L (Auth ALogin));                          (* 334 *)
-    ({| st := MAIL; from := Some og; rcpts := [rc]; helo := [104]; tls := false |}, L (DataC true));             (* 354 *)
-    ({| st := DATA; from := Some og; rcpts := [rc]; helo := [104]; tls := false |}, B (PBlock [] None None));    (* 451 *)
-    (sess READY, L Starttls);                               (* 454 *)
-    (sess READY, L Unknown);                                (* 500 *)
-    (sess READY, L (Mail MBadSyntax NoAns));                (* 501 *)
-    (sess READY, L Unimpl);                                 (* 502 *)
-    (sess GREET, L Rset);                                   (* 250 *)
-    (sess GREET, L (Mail MBadSyntax NoAns));                (* 503 *)
-    ({| st := MAIL; from := Some og; rcpts := []; helo := [104]; tls := false |}, L (Rcpt (RParsed (Some rc)) NoAns));   (* 550 *)
-    (sess READY, L (Mail (MParsed (SzVal 11) (Some og)) NoAns)) ].                                  (* 552 *)
-Definition writes (w : session * item) (code : Z) : bool :=
+Definition c_tls : scfg := {| pol := p0; max_rcpt := 1; max_bytes := 10; tls_enabled := true |}.
+Definition witnesses : list (scfg * session * item) :=
+  [ (c0, sess READY, L Quit);                                   (* 221 *)
+    (c0, sess PASSWORD, L Noop);                                (* 235 *)
+    (c0, sess READY, L Noop);                                   (* 250 *)
+    (c0, sess READY, L Vrfy);                                   (* 252 *)
+    (c0, sess READY, L (Auth ALogin));                          (* 334 *)
+    (c0, {| st := MAIL; from := Some og; rcpts := [rc]; helo := [104]; tls := false |}, L (DataC true));             (* 354 *)
+    (c0, {| st := DATA; from := Some og; rcpts := [rc]; helo := [104]; tls := false |}, B (PBlock [] None None));    (* 451 *)
+    (c0, sess READY, L Starttls);                               (* 454 *)
+    (c_tls, sess READY, L Starttls);                            (* 220 *)
+    (c0, sess READY, L Unknown);                                (* 500 *)
+    (c0, sess READY, L (Mail MBadSyntax NoAns));                (* 501 *)
+    (c0, sess READY, L Unimpl);                                 (* 502 *)
+    (c0, sess GREET, L Rset);                                   (* 250 *)
+    (c0, sess GREET, L (Mail MBadSyntax NoAns));                (* 503 *)
+    (c0, {| st := MAIL; from := Some og; rcpts := []; helo := [104]; tls := false |}, L (Rcpt (RParsed (Some rc)) NoAns));   (* 550 *)
+    (c0, sess READY, L (Mail (MParsed (SzVal 11) (Some og)) NoAns)) ].                                  (* 552 *)
+Definition writes (w : scfg * session * item) (code : Z) : bool :=
   hook_code_free (snd w) &&
-  match step c0 (fst w) (snd w) with
+  match step (fst (fst w)) (snd (fst w)) (snd w) with
   | Ok _ r _ => existsb (fun rl => (fst rl =? code)%Z) r
   | _ => false
   end.
 
 Theorem pinned_codes_written :
-  forallb (fun code => (code =? 220)%Z || existsb (fun w => writes w code) witnesses) smtp_reply_codes = true.
+  forallb (fun code => existsb (fun w => writes w code) witnesses) smtp_reply_codes = true.
 Proof. vm_compute. reflexivity. Qed.
 
 Theorem every_source_code_is_a_model_code : forall code, In code smtp_reply_codes ->
-  code = 220%Z \/
-  exists s it s' r d, step c0 s it = Ok s' r d /\ hook_code_free it = true /\ In code (map fst r).
+  exists c s it s' r d, step c s it = Ok s' r d /\ hook_code_free it = true /\ In code (map fst r).
 Proof.
   intros code Hin. pose proof pinned_codes_written as H. rewrite forallb_forall in H. specialize (H _ Hin).
-  apply orb_true_iff in H as [H|H]; [left; lia|right].
-  apply existsb_exists in H as ([s it] & _ & Hw). unfold writes in Hw. cbn [fst snd] in Hw.
+  apply existsb_exists in H as ([[c s] it] & _ & Hw). unfold writes in Hw. cbn [fst snd] in Hw.
   apply andb_true_iff in Hw as [Hf Hw].
-  destruct (step c0 s it) as [s' r d| |] eqn:E; try discriminate.
+  destruct (step c s it) as [s' r d| |] eqn:E; try discriminate.
   apply existsb_exists in Hw as ([cd more] & Hr & Hc). cbn [fst] in Hc.
-  exists s, it, s', r, d. repeat split; auto. apply in_map_iff. exists (cd, more). split; [cbn; lia|exact Hr].
+  exists c, s, it, s', r, d. repeat split; auto. apply in_map_iff. exists (cd, more). split; [cbn; lia|exact Hr].
 Qed.
